@@ -61,13 +61,18 @@ MENU_LIFECYCLE = dict(
 )
 
 
-def with_interrupts(menu, kinds=("kbd", "sysexit", "baseexc"), points=("connect", "sendall", "recv")):
+ALL_POINTS = ("getaddrinfo", "socket", "setsockopt", "settimeout", "connect", "sendall", "recv", "close")
+
+
+def with_interrupts(menu, kinds=("kbd", "sysexit", "baseexc"), points=ALL_POINTS):
+    """menu plus asynchronous interruptions (BaseException) at the given socket calls; for
+    calls with an effect (connect, sendall, close) both 'before' and 'after the effect'."""
     m = {k: list(v) for k, v in menu.items()}
     for p in points:
         m.setdefault(p, [])
         for k in kinds:
             m[p].append("int:" + k)
-            if p in ("sendall", "connect"):
+            if p in ("sendall", "connect", "close"):
                 m[p].append("int_after:" + k)
     return m
 
@@ -524,6 +529,10 @@ class SimSocket:
         c = "ok"
         if self.state != "closed":
             c = net.choose("close", net.menu.get("close", ()))
+        if c.startswith("int:"):
+            # interrupted before the descriptor was released
+            net.log("close_interrupted", self, c)
+            raise INTERRUPTS[c[4:]]()
         was = self.state
         self.state = "closed"
         if self.inner is not None:
@@ -531,8 +540,8 @@ class SimSocket:
         net.log("close", self, was)
         if c == "oserror":
             raise OSError(errno.EIO, "close failed")
-        if c.startswith("int:"):
-            raise INTERRUPTS[c[4:]]()
+        if c.startswith("int_after:"):
+            raise INTERRUPTS[c[10:]]()
 
 
 class SimTLSContext:
